@@ -44,6 +44,7 @@ type caseT struct {
 	height int64
 	now    int64
 	fee    []int64
+	faults bool // inject malformed nonce pairs in about a third of the cases
 }
 
 func coinsOf(amt []int64) sdk.Coins {
@@ -153,6 +154,24 @@ func (c *caseT) submitDE() {
 		}
 	}
 	c.emit(fx.M{"op": "submitDE", "member": id, "k": k}, e)
+}
+
+// badDE puts a malformed nonce pair at the tail of a member's queue through the keeper API (MsgSubmitDEs
+// validates the points, so this is fault injection: a signing creation that fails after the dequeue).
+func (c *caseT) badDE() {
+	id := c.r.Range(1, int(c.g.N))
+	bad := make([]byte, 33)
+	bad[0] = 0x05
+	bad[31] = byte(c.next >> 8)
+	bad[32] = byte(c.next)
+	de := tsstypes.DE{PubD: bad, PubE: bad}
+	e := fx.Atomically(c.ctx, func(ctx sdk.Context) error { return c.app.TSSKeeper.EnqueueDEs(ctx, c.g.Addr(id), []tsstypes.DE{de}) })
+	if e == "" {
+		c.tokens[hex.EncodeToString(bad)] = c.next
+		c.next++
+		c.tr.Tag("fault-bad-de")
+	}
+	c.emit(fx.M{"op": "badDE", "member": id}, e)
 }
 
 func (c *caseT) resetDE() {
@@ -300,6 +319,7 @@ func RunCase(app *fx.App, tr *fx.Trace, r *fx.Rng) {
 	c := &caseT{app: app, ctx: ctx, tr: tr, r: r, tms: tsskeeper.NewMsgServerImpl(app.TSSKeeper), bms: bandtsskeeper.NewMsgServerImpl(app.BandtssKeeper),
 		reqs: []bandtesting.Account{bandtesting.Bob, bandtesting.Carol}, tokens: map[string]int{}}
 	c.height = int64(r.Range(10, 30))
+	c.faults = r.Chance(1, 3)
 	c.now = 1_700_000_000_000_000_000 + int64(r.Range(0, 100))*1_000_000_000
 	c.setClock()
 	period, maxAtt, maxDE := c.setParams(false)
@@ -349,6 +369,10 @@ func RunCase(app *fx.App, tr *fx.Trace, r *fx.Rng) {
 	}
 	nops := r.Range(10, 45)
 	for i := 0; i < nops; i++ {
+		if c.faults && r.Chance(1, 7) {
+			c.badDE()
+			continue
+		}
 		switch x := r.Intn(40); {
 		case x < 6:
 			c.submitDE()
